@@ -164,7 +164,7 @@ Proof.
 Qed.
 
 Lemma ss_transfer_bals : forall s f t v s', ss_transfer s f t v = Some s' -> f <> t -> 0 <= v ->
-  ss_bal s' f = ss_bal s f - v /\ ss_bal s' t = ss_bal s t + v /\ st_blobbers s' = st_blobbers s /\ v <= ss_bal s f.
+  ss_bal s' f = ss_bal s f - v /\ ss_bal s' t = ss_bal s t + v /\ st_blobbers s' = st_blobbers s.
 Proof.
   unfold ss_transfer; intros s f t v s' H Hne Hv. destruct (Z.eqb_spec v 0).
   - inversion H; subst. repeat split; lia.
@@ -172,4 +172,47 @@ Proof.
     rewrite !ss_assoc0_set.
     destruct (Z.eqb_spec f t); [contradiction|]. rewrite Z.eqb_refl.
     destruct (Z.eqb_spec t f); [congruence|]. rewrite Z.eqb_refl. repeat split; lia.
+Qed.
+
+(* closing: what leaves the pools goes to the blobbers' stake pools (at most) and to the owner (exactly the rest) *)
+Theorem ss_close_spec : forall c s now round a s',
+  al_c12 a -> al_owner a <> cf_sc c -> ss_close c s now round a = Some s' ->
+  exists cp paid charged refund,
+    al_cp a = Some cp /\ 0 <= paid <= cp /\ 0 <= charged /\
+    refund = al_wpool a + cp - paid - charged /\ 0 <= refund /\
+    ss_bal s' (al_owner a) = ss_bal s (al_owner a) + refund /\
+    ss_bal s' (cf_sc c) = ss_bal s (cf_sc c) - refund /\
+    ss_total_rewards (st_blobbers s) <= ss_total_rewards (st_blobbers s') <= ss_total_rewards (st_blobbers s) + paid + charged /\
+    st_allocs s' = ss_del_alloc (al_id a) (st_allocs s).
+Proof.
+  unfold ss_close; intros c s now round a s' Ha Hown H.
+  remember (ss_settle_all c round a) as r eqn:Er. destruct r as [[a1 rates] gone]. symmetry in Er.
+  assert (Ha1 : al_c12 a1) by (eapply al_c12_money_eq; [eapply ss_settle_all_money; eauto | exact Ha]).
+  assert (Hm : al_money a1 = al_money a) by (eapply ss_settle_all_money; eauto).
+  bind_as H cp Ecp. bind_as H [[bas bls1] paid] E1. bind_as H cp1 E2. bind_as H mb E3. bind_as H w E4. guard_inv H. bind_as H due E5.
+  bind_as H [bls2 w2] E6. bind_as H bls3 E7. bind_as H s2 E8. inversion H; subst. clear H.
+  assert (Hcpa : al_cp a = Some cp) by (unfold al_money in Hm; inversion Hm; congruence).
+  assert (Hwa : al_wpool a1 = al_wpool a) by (unfold al_money in Hm; inversion Hm; congruence).
+  assert (Hnn : Forall (fun d => 0 <= ba_cpiv d) (al_bas a1)) by (destruct Ha1 as [_ [Hn _]]; apply cpivs_nonneg_Forall; exact Hn).
+  pose proof (al_c12_cp _ Ha1) as Hcp1. rewrite Ecp in Hcp1. inversion Hcp1; subst cp. clear Hcp1.
+  pose proof (al_c12_wpool _ Ha1) as Hw1.
+  apply ss_fin_loop_rewards in E1; [|exact Hnn]. destruct E1 as [Hp Hr1].
+  apply ss_minus_coin_some in E2. destruct E2 as [-> Hle].
+  apply ss_add_coin_some in E4. destruct E4 as [-> _].
+  assert (Hc : exists charged, 0 <= charged /\ w2 = al_wpool a1 + (ss_sum_cpiv (al_bas a1) - paid) - charged /\ 0 <= w2 /\
+                               ss_total_rewards bls1 <= ss_total_rewards bls2 <= ss_total_rewards bls1 + charged).
+  { destruct due as [cc|].
+    - bind_as E6 total Et. bind_as E6 [bls' charged] El. bind_as E6 w' Ew. guard_inv E6. inversion E6; subst.
+      apply ss_cancel_loop_rewards in El. destruct El as [Hc0 Hrc]. apply ss_minus_coin_some in Ew. destruct Ew as [-> Hlew].
+      exists charged. repeat split; auto; lia.
+    - inversion E6; subst. exists 0. repeat split; lia. }
+  destruct Hc as [charged [Hc0 [Hw2 [Hw20 Hr2]]]].
+  apply ss_release_loop_rewards in E7.
+  pose proof (ss_transfer_allocs _ _ _ _ _ E8) as Hal.
+  apply ss_transfer_bals in E8; [|cbn; congruence|exact Hw20]. destruct E8 as [Hb1 [Hb2 Hbl]].
+  exists (ss_sum_cpiv (al_bas a1)), paid, charged, w2. cbn [st_blobbers st_with_allocs st_allocs].
+  rewrite Hbl. cbn [st_blobbers st_with_chals st_with_blobbers]. rewrite E7.
+  unfold ss_bal in *. cbn [st_bals st_with_chals st_with_blobbers st_with_allocs] in *.
+  repeat split; auto; try lia.
+  rewrite Hal. reflexivity.
 Qed.
